@@ -10,8 +10,11 @@ VARIABLES tid, l, verdict, ts, ti, drifted
 ImplCmp(i, e) ==
   IF e.kind # "req" \/ e.cls \notin Requests THEN <<{}, i>>
   ELSE LET pl == Pipeline(e.cls, Legacy, FALSE)
-           pf == Pipeline(e.cls, Fixed, FALSE) IN
-       << IF Same(e.obs, pl) \/ Same(e.obs, pf) THEN {}
+           pf == Pipeline(e.cls, Fixed, FALSE)
+           \* bounded queue that the tester has not seen drained: the
+           \* queue.Full branch is a possible prediction as well
+           pq == Pipeline(e.cls, Fixed, e.env.qcap > 0 /\ ~e.env.drained) IN
+       << IF Same(e.obs, pl) \/ Same(e.obs, pf) \/ Same(e.obs, pq) THEN {}
           ELSE {<<e.cls.verb, e.cls.accept, e.cls.charset, e.cls.range,
                   e.cls.ctype, e.cls.cenc, e.cls.clen, e.cls.body,
                   e.obs.outcome, e.obs.status>>},
